@@ -4,12 +4,16 @@ implementation output."""
 import itertools
 import math
 
+import os
+
 import numpy as np
 
 from .. import vlib
 from ..vlib import f2bits, fl, il
 
 LEAN_TARGETS = ["SkaModel.Props.C18", "SkaModel.Props.C18choice"]
+# theorems about, and the executable of, the model translated from the current source of utils/_selection.py on every run
+GEN_TARGETS = ["SkaModel.Props.SelectionGen", "skaselgendriver"]
 LEVEL = "proof"
 RULE = (
     "cases: calls of rand_argmax / rand_argmin (1-d, 2-d with axis None/0/1) and simple_batch (max / proportional, "
@@ -322,6 +326,12 @@ def case_simple_batch(ctx, lines, expect, u, b, method, seed, int_seed=False):
         ctx.violate("C18/simple_batch/" + bad.split(",")[0][:40], f"simple_batch: {bad}", case)
 
 
+def generate(ctx):
+    from ..translate import pyselect
+
+    pyselect.generate(ctx)
+
+
 def correspond(ctx):
     rng = ctx.rng
     lines, expect = [], []
@@ -382,6 +392,16 @@ def correspond(ctx):
     for line, out, (impl, case) in zip(lines, outs, expect):
         if out.split() != impl.split():
             ctx.disagree("SkaModel.Core.Selection vs skactiveml.utils._selection", dict(case, line=line), out, impl)
+    # the model translated from the current source (1-d rand_argmax / rand_argmin, simple_batch with method "max")
+    if getattr(ctx, "gen_ok", False) and os.path.exists(vlib.SELGENDRIVER):
+        sel = [(l, e) for l, e in zip(lines, expect)
+               if l.split(" ", 1)[0] in ("randargmax", "randargmin") or l.startswith("simplebatch max ")]
+        gouts = vlib.run_driver(["g_" + l for l, _ in sel], exe=vlib.SELGENDRIVER)
+        for (line, (impl, case)), out in zip(sel, gouts):
+            ctx.count("generated_model_cases")
+            if out.split() != impl.split():
+                ctx.disagree("SkaModel.Gen.SelectionGen (translated from the current source) vs skactiveml.utils._selection",
+                             dict(case, line="g_" + line), out, impl)
     seeds_reach(ctx)
 
 
